@@ -49,6 +49,10 @@ func faultSpecs(thorough bool, prefix string) ([]specCase, explore.Stats) {
 		if n <= 2 || allFull {
 			x.Choose("pollute", len(pollutions))
 		}
+		// every provider takes its last dependency as a variadic parameter (that dependency is slice-typed)
+		if n >= 2 {
+			x.Choose("variadic", 2)
+		}
 		// result kind and injector shape: full product for small graphs only
 		small := n <= 2 || (thorough && n <= 3)
 		if small {
@@ -68,6 +72,14 @@ func faultSpecs(thorough bool, prefix string) ([]specCase, explore.Stats) {
 		g.Nodes[n-1].TKind = []int{TPtr, TLeaf, TInt, TIface, TSlice}[ch["rkind"]]
 		g.InjMore = ch["more"] == 1
 		g.ExtraDecl = pollutions[ch["pollute"]]
+		if ch["variadic"] == 1 {
+			for i := 0; i < n; i++ {
+				if k := len(g.Adj[i]); k > 0 {
+					g.Nodes[g.Adj[i][k-1]].TKind = TSlice
+					g.Nodes[i].Variadic = true
+				}
+			}
+		}
 		out = append(out, specCase{prefix + x.ID(), g})
 	})
 	return out, st
@@ -213,7 +225,7 @@ func sampleCase(c *h.Check, cases []*h.Case, results []*h.Result) {
 func checkC03(c *h.Check) {
 	specs, st := faultSpecs(c.Tier == "thorough", "C03/dag/")
 	cases, results := runSpecs(c, specs, map[string]bool{"error-path": true})
-	stdCoverage(c, cases, results, "all DAGs on <=3 nodes (thorough 4) x {plain,err,cleanup,cleanup+err}^N x result kind x injector shape x package-level identifiers colliding with wire's local names (cleanup, cleanup2, err, err2); per program every single failure point and all call histories of length 3 over {ok, fail@k}. Distinct = distinct rendered source; non-trivial = all (every program differs in graph or provider shape).")
+	stdCoverage(c, cases, results, "all DAGs on <=3 nodes (thorough 4) x {plain,err,cleanup,cleanup+err}^N x result kind x injector shape x variadic last parameters x package-level identifiers colliding with wire's local names (cleanup, cleanup2, err, err2); per program every single failure point and all call histories of length 3 over {ok, fail@k}. Distinct = distinct rendered source; non-trivial = all (every program differs in graph or provider shape).")
 	c.Coverage["explorer"] = map[string]interface{}{"executions": st.Executions, "mode": "full product", "max_depth": st.MaxDepth}
 	sampleCase(c, cases, results)
 	c.Assumptions = append(c.Assumptions, "data independence: identities stand for all argument values", "failure = the provider returns a non-nil error; panics are outside the statement")
